@@ -248,10 +248,10 @@ Proof. destruct o; try discriminate; intros _; split; exact I. Qed.
    all three runs with the event that caused the transition *)
 Theorem external_phases eng pr m t tgt ev s0 s1 :
   let d := find_domain m (t_src t) tgt in
-  let xs := exit_set_h m (s_cfg s0) (s_hist s0) d tgt in
+  let xs := ext_exit_set m (s_cfg s0) (s_hist s0) d tgt in
   let hist := is_history m tgt in
   let hts := if hist then resolve_history m (s_hist s0) tgt else [] in
-  let path := if hist then [] else path_to m tgt d in
+  let path := if hist then [] else ext_path m tgt d in
   (exit_states eng pr m (rev (sort_by (lt_depth_id m) xs)) (Some ev) ;;
    (fun s => exec_actions eng pr (t_actions t) ev s) ;;
    enter eng pr m path (Some ev) ;;
@@ -262,7 +262,7 @@ Theorem external_phases eng pr m t tgt ev s0 s1 :
 Proof.
   cbv zeta. unfold bind at 1. intros H.
   destruct (e_exit_states (exit_phase ev) (infra_exit ev) (fun x => conj I I) ev (fun k => conj I (conj eq_refl eq_refl)) eng pr m
-              (rev (sort_by (lt_depth_id m) (exit_set_h m (s_cfg s0) (s_hist s0) (find_domain m (t_src t) tgt) tgt))) s0) as [l1 [E1 F1]].
+              (rev (sort_by (lt_depth_id m) (ext_exit_set m (s_cfg s0) (s_hist s0) (find_domain m (t_src t) tgt) tgt))) s0) as [l1 [E1 F1]].
   destruct (exit_states eng pr m _ (Some ev) s0) as [sa [e|]]; [discriminate|]. simpl in E1.
   unfold bind at 1 in H.
   destruct (e_exec_actions (action_phase ev) (infra_action ev) eng pr (t_actions t) ev (fun k => conj I (conj I (conj eq_refl eq_refl))) sa) as [l2 [E2 F2]].
@@ -270,7 +270,7 @@ Proof.
   assert (He : forall l, emits (entry_phase ev) (enter eng pr m l (Some ev))).
   { intros l. apply e_enter; [apply infra_entry | intros x; split; exact I | intros k; split; [exact I | split; reflexivity]]. }
   unfold bind at 1 in H.
-  destruct (He (if is_history m tgt then [] else path_to m tgt (find_domain m (t_src t) tgt)) sb) as [l3 [E3 F3]].
+  destruct (He (if is_history m tgt then [] else ext_path m tgt (find_domain m (t_src t) tgt)) sb) as [l3 [E3 F3]].
   destruct (enter eng pr m _ (Some ev) sb) as [sc [e|]]; [discriminate|]. simpl in E3.
   assert (H4 : exists l4, s_log s1 = l4 ++ s_log sc /\ Forall (entry_phase ev) l4).
   { destruct (is_history m tgt).
